@@ -1,5 +1,5 @@
 import StepModel.P21.Writer
-import StepModel.P21.ReaderLemmas10
+import StepModel.P21.ReaderLemmas11
 import StepModel.Generated.P21RWGen
 /-! # C01 — exchange files survive read-then-write: property theorems
 
@@ -913,6 +913,51 @@ theorem C01_source_skip_instance_skips_comments : Generated.rwCfg.skipInstanceSk
 
 /-- … and the elements of aggregates of NUMBER are read as NUMBERs (repair C01-6) -/
 theorem C01_source_number_elements_read_as_numbers : Generated.rwCfg.numberElemReadsNumber = true := by decide
+
+/-! ### externally mapped (subtype/supertype) records: `STEPcomplex::STEPread` -/
+
+/-- a part `KEYWORD blanks ( parameters ) blanks` of an externally mapped record over the covered kinds: the keyword (either
+    letter case) names an entity of the dictionary, the parameters are those of the entity's *own* attributes — or the
+    entity has none and the parentheses hold layout only -/
+inductive CPartCovered {F} (env : Env F) : CPart F → Prop where
+  | params (n0 : Byte) (ns sA sB : List Byte) (hn0 : isAlpha n0 = true) (hns : ns.all kwc = true)
+      (hsA : sA.all isSpace = true) (hsB : sB.all isSpace = true) (ed : EntityD)
+      (hent : env.dict.entity? (bytesToString (upperBytes (n0 :: ns))) = some ed) (ps : List (Param F)) (hne : ps ≠ [])
+      (hattrs : ed.ownAttrs = ps.map (·.a)) (hcov : ∀ p ∈ ps, Covered env p) :
+      CPartCovered env { n0 := n0, ns := ns, sA := sA, body := renderParams ps, sB := sB, vals := ps.map (·.v) }
+  | empty (n0 : Byte) (ns sA sB : List Byte) (hn0 : isAlpha n0 = true) (hns : ns.all kwc = true)
+      (hsA : sA.all isSpace = true) (hsB : sB.all isSpace = true) (ed : EntityD)
+      (hent : env.dict.entity? (bytesToString (upperBytes (n0 :: ns))) = some ed) (hattrs : ed.ownAttrs = [])
+      (inner : List Byte) (hin : Seps inner) :
+      CPartCovered env { n0 := n0, ns := ns, sA := sA, body := inner ++ [41], sB := sB, vals := [] }
+
+/-- **an externally mapped record is read part by part** (`_partial`, record level: pass 2 only; blanks — not comments, see
+    the finding `layout:comment@cx` — between the parts and around their parentheses; any layout inside the parentheses;
+    parameter kinds of `Covered`).  `STEPcomplex::STEPread` on `( PART(…) PART(…) … )`, the parts in any order and any
+    number, each naming a part the instance has: every part's own attributes are read to the values of their tokens,
+    severity NULL, the stream rests after the closing parenthesis.  Not proved: pass 1 for such records
+    (`CreateSubSuperInstance`: the sorted part list and the table of legal combinations) and hence the file level. -/
+theorem C01_read_complex_record_partial {F} (env : Env F) (strict : Bool) (hcfg : env.lex.criSkipsComments = true)
+    (hagg : env.cfg.aggrSkipsComments = true) (parts : List (MPart F)) (cs : List (CPart F))
+    (hcov : ∀ c ∈ cs, CPartCovered env c) (hnames : ∀ c ∈ cs, c.name ∈ parts.map (·.name))
+    (sp0 : List Byte) (hsp0 : sp0.all isSpace = true) (l : List Byte) (sk : Bool) (rest : List Byte) :
+    ∃ l' sk', complexSTEPread env strict parts (G l (40 :: (sp0 ++ (renderCParts cs ++ 41 :: rest))) sk) =
+      .ok ⟨.null, cs.foldl (fun ps c => setPart ps c.name c.vals) parts, G l' rest sk'⟩ := by
+  apply complexSTEPread_parts env strict parts cs _ hnames sp0 hsp0
+  intro c hc
+  cases hcov c hc with
+  | params n0 ns sA sB hn0 hns hsA hsB ed hent ps hne hattrs hcv =>
+    refine ⟨hn0, hns, hsA, hsB, ed, hent, ?_⟩
+    intro l sk rest
+    rw [hattrs]
+    exact C01_read_record_partial env strict hcfg hagg ps hne hcv l sk rest
+  | empty n0 ns sA sB hn0 hns hsA hsB ed hent hattrs inner hin =>
+    refine ⟨hn0, hns, hsA, hsB, ed, hent, ?_⟩
+    intro l sk rest
+    refine ⟨sk, ?_⟩
+    rw [hattrs]
+    have := C01_read_empty_record env strict inner hin l rest sk
+    simpa using this
 
 /-! ### write ∘ read at file level -/
 
